@@ -262,7 +262,7 @@ impl Model for LimModel {
         // vacuity check: (routes in the Adj-RIB-In, counter value, session up)
         let n = sys.d.tables.collect_paths(table::TableQuery::AdjIn(PEER), F, vec![], true).len() as u64;
         let c = sys.conn.as_ref().and_then(|c| c.limits.first().map(|l| l.2.load(Ordering::Relaxed))).unwrap_or(99);
-        n * 1000 + c * 10 + sys.conn.is_some() as u64
+        n.wrapping_mul(1000).wrapping_add(c.wrapping_mul(10)).wrapping_add(sys.conn.is_some() as u64)
     }
     fn panic_sig(&self, msg: &str) -> Option<(String, String)> {
         if msg.contains("/verif/") {
